@@ -99,3 +99,228 @@ Check SrcTie2Events.EV_enc_load_persistent_shape.
 Theorem C07_tie_EV_enc_load_persistent_shape : ltac:(let t := type of SrcTie2Events.EV_enc_load_persistent_shape in exact t).
 Proof. exact SrcTie2Events.EV_enc_load_persistent_shape. Qed.
 Print Assumptions C07_tie_EV_enc_load_persistent_shape.
+
+(* ====================================================================================== *)
+(* Work package c07rng: randomness as an explicit resource (Fresh.v) and "nothing in clear" *)
+(* (Masked.v).  The property is still PARTIAL: that the OS generator does not repeat, that    *)
+(* ChaCha20 outputs of different seeds do not collide on the bytes drawn and that an AES-CTR  *)
+(* keystream coincidence does not happen are HYPOTHESES / the exhibited event, not theorems.  *)
+(* ====================================================================================== *)
+From MLA Require Import Builders Fresh FreshProofs EncLayer EncWriter Masked MaskedProofs Blocks Writer Archive.
+From MLA Require SrcTie3Fresh.
+From MLA.Concrete Require ChaCha20 X25519.
+
+(* "a symmetric key, an archive nonce and an ephemeral public key that are freshly random": for every OS
+   entropy source, every expander, every curve and ANY trace of calls (any number of processes and threads,
+   any interleaving, configurations made by new() or default(), builders in any order and number,
+   to_persistent called directly, archives made by from_config or ArchiveWriter::new, whatever files,
+   recipients, layers and levels): key and nonce of every encrypted archive are the fixed functions key_of /
+   nonce_of of ONE request to the OS, its ephemeral scalar is eph_of of ANOTHER request, the header carries
+   pubk of that scalar, and the requests behind all archives are pairwise distinct. *)
+Theorem C07_secrets_are_entropy_functions :
+  forall (entropy : nat -> bytes) (expand : bytes -> N -> bytes) (pubk : bytes -> bytes) (L_DEFAULT LEVEL_DEFAULT L_ENC : N)
+         (t : list evt),
+    let m := run entropy expand pubk L_DEFAULT LEVEL_DEFAULT L_ENC m_init t in
+    (forall a, In a (m_out m) -> a_enc a = true ->
+       a_key a = key_of expand (entropy (a_cfg_req a)) /\
+       a_nonce a = nonce_of expand (entropy (a_cfg_req a)) /\
+       a_eph a = eph_of expand (entropy (a_wrap_req a)) /\
+       a_epub a = pubk (a_eph a) /\
+       (a_cfg_req a < m_w m)%nat /\ (a_wrap_req a < m_w m)%nat /\ a_cfg_req a <> a_wrap_req a) /\
+    NoDup (flat_map (fun a => if a_enc a then [a_cfg_req a; a_wrap_req a] else []) (m_out m)).
+Proof. exact secrets_are_entropy_functions. Qed.
+
+(* "(never repeated across archives created with identical inputs)": B = the requests made to the OS in the
+   period considered.  IF the OS did not repeat among them, the expansions of the seeds it returned do not
+   collide on the 32 key bytes / 8 nonce bytes / 32 scalar bytes drawn, and the scalars drawn have distinct
+   public keys, THEN any two archives of any trace — identical inputs or not, same process or not, any builder
+   path — differ in key, in nonce, in ephemeral scalar and in ephemeral public key.
+   (The hypotheses are about the seeds that OCCURRED: universal injectivity of a 32-byte -> 8-byte map is
+   impossible by counting, and X25519 clamps scalars.) *)
+Theorem C07_fresh_if_entropy_fresh :
+  forall (entropy : nat -> bytes) (expand : bytes -> N -> bytes) (pubk : bytes -> bytes) (L_DEFAULT LEVEL_DEFAULT L_ENC : N)
+         (B : nat),
+    (forall i j, (i < B)%nat -> (j < B)%nat -> entropy i = entropy j -> i = j) ->
+    (forall i j, (i < B)%nat -> (j < B)%nat -> key_of expand (entropy i) = key_of expand (entropy j) -> entropy i = entropy j) ->
+    (forall i j, (i < B)%nat -> (j < B)%nat -> nonce_of expand (entropy i) = nonce_of expand (entropy j) -> entropy i = entropy j) ->
+    (forall i j, (i < B)%nat -> (j < B)%nat -> eph_of expand (entropy i) = eph_of expand (entropy j) -> entropy i = entropy j) ->
+    (forall i j, (i < B)%nat -> (j < B)%nat ->
+       pubk (eph_of expand (entropy i)) = pubk (eph_of expand (entropy j)) -> eph_of expand (entropy i) = eph_of expand (entropy j)) ->
+  forall (t : list evt) i j a1 a2,
+    let m := run entropy expand pubk L_DEFAULT LEVEL_DEFAULT L_ENC m_init t in
+    (m_w m <= B)%nat ->
+    nth_error (m_out m) i = Some a1 -> nth_error (m_out m) j = Some a2 -> i <> j ->
+    a_enc a1 = true -> a_enc a2 = true ->
+    a_key a1 <> a_key a2 /\ a_nonce a1 <> a_nonce a2 /\ a_eph a1 <> a_eph a2 /\ a_epub a1 <> a_epub a2.
+Proof. exact fresh_if_entropy_fresh. Qed.
+
+(* the builders leave key and nonce alone; add_public_keys EXTENDS the recipient list *)
+Theorem C07_builders_do_not_touch_secrets :
+  forall c l ks lvl,
+    (c_key (b_enable c l) = c_key c /\ c_nonce (b_enable c l) = c_nonce c) /\
+    (c_key (b_disable c l) = c_key c /\ c_nonce (b_disable c l) = c_nonce c) /\
+    (c_key (b_set_layers c l) = c_key c /\ c_nonce (b_set_layers c l) = c_nonce c) /\
+    (c_key (b_add_keys c ks) = c_key c /\ c_nonce (b_add_keys c ks) = c_nonce c) /\
+    (c_key (b_level c lvl) = c_key c /\ c_nonce (b_level c lvl) = c_nonce c) /\
+    c_recips (b_add_keys c ks) = c_recips c ++ ks /\
+    c_recips (b_enable c l) = c_recips c /\ c_recips (b_disable c l) = c_recips c /\
+    c_recips (b_set_layers c l) = c_recips c /\ c_recips (b_level c lvl) = c_recips c.
+Proof. exact builders_do_not_touch_secrets. Qed.
+(* ... and so does any sequence of them, in any order and number: the recipients at the end are the initial
+   ones followed by the keys of all add_public_keys calls in call order *)
+Theorem C07_builder_sequence_keeps_secrets :
+  forall (cls : list call) c, Forall (fun cl => builder_of cl <> None) cls ->
+    let c' := fold_left (fun c cl => match builder_of cl with Some f => f c | None => c end) cls c in
+    c_key c' = c_key c /\ c_nonce c' = c_nonce c /\ c_req c' = c_req c /\
+    c_recips c' = c_recips c ++ flat_map (fun cl => match cl with CAddKeys ks => ks | _ => [] end) cls.
+Proof. exact builder_sequence_keeps_secrets. Qed.
+
+(* "no file content and no file name appears in clear anywhere in its bytes after the header" — the logic:
+   layer: ANY list of write_all / flush calls, then finalize *)
+Theorem C07_body_is_keystream_masked_layer :
+  forall CHUNK CIPHERBUF, 0 < CHUNK -> forall ks tagc fuel cs s,
+    ew_archive_calls CHUNK CIPHERBUF ks tagc fuel cs = Ok s ->
+    ew_out s = enc_format CHUNK ks tagc (concat (writes_of cs)).
+Proof. exact body_is_keystream_masked_layer. Qed.
+(* one write hands down a tag (of the chunk just filled) and the XOR-masked accepted prefix, a flush nothing *)
+Theorem C07_write_emits_cipher_only :
+  forall CHUNK CIPHERBUF, 0 < CHUNK -> forall ks tagc s buf s' n, ew_write CHUNK CIPHERBUF ks tagc s buf = Ok (s', n) ->
+    exists tagpart,
+      ew_out s' = ew_out s ++ tagpart ++ xor_from ks (ew_ctr s') (ew_off s' - n) (takeN n buf) /\
+      (tagpart = [] \/ tagpart = tagc (ew_ctr s) (ew_cur s)) /\ n <= len buf.
+Proof. exact write_emits_cipher_only. Qed.
+Theorem C07_flush_emits_nothing : forall s s', ew_flush s = Ok s' -> s' = s.
+Proof. exact flush_emits_nothing. Qed.
+(* whole archive: any writer calls (flush anywhere), any cuts between the layers *)
+Theorem C07_body_is_keystream_masked :
+  forall CHUNK CIPHERBUF BLOCK LIMIT FNMAX TS TC TA TE H order pubk dh kdf wenc wtag ksf tagf, 0 < CHUNK ->
+  forall cfg cut_top cut_mid ops a,
+    archive_write CHUNK CIPHERBUF BLOCK LIMIT FNMAX TS TC TA TE H order pubk dh kdf wenc wtag ksf tagf
+                  cfg cut_top cut_mid ops = Ok a ->
+    wc_encrypt cfg = true ->
+    exists hdr plain,
+      dump_header LIMIT (to_persistent pubk dh kdf wenc wtag cfg) = Ok hdr /\
+      a = hdr ++ enc_format CHUNK (ksf (wc_key cfg) (wc_nonce cfg)) (tagf (wc_key cfg) (wc_nonce cfg)) plain /\
+      (wc_compress cfg = false ->
+       plain = w_out (fst (wrun FNMAX TS TC TA TE H order w_init (ops ++ [OFinalize])))).
+Proof. exact archive_body_masked. Qed.
+(* byte i of chunk j = plaintext byte XOR keystream (j, i) *)
+Theorem C07_enc_format_byte :
+  forall CHUNK TAG, 0 < CHUNK -> forall ks tagc, 0 < TAG -> (forall i c, len (tagc i c) = TAG) ->
+  forall plain j i, i < CHUNK -> j * CHUNK + i < len plain ->
+    byteN (j * (CHUNK + TAG) + i) (enc_format CHUNK ks tagc plain) = N.lxor (byteN (j * CHUNK + i) plain) (ks j i).
+Proof. exact enc_format_byte. Qed.
+(* an occurrence of a window of plaintext in the body needs exactly this keystream coincidence *)
+Theorem C07_plain_windows_need_keystream_coincidence :
+  forall CHUNK TAG, 0 < CHUNK -> forall ks tagc, 0 < TAG -> (forall i c, len (tagc i c) = TAG) ->
+  forall plain w o, sliceN o (len w) (enc_format CHUNK ks tagc plain) = w ->
+  forall t, t < len w ->
+    let q := o + t in let j := q / (CHUNK + TAG) in let i := q mod (CHUNK + TAG) in
+    i < CHUNK -> j * CHUNK + i < len plain ->
+    ks j i = N.lxor (byteN t w) (byteN (j * CHUNK + i) plain).
+Proof. exact plain_windows_need_keystream_coincidence. Qed.
+
+Print Assumptions C07_secrets_are_entropy_functions.
+Print Assumptions C07_fresh_if_entropy_fresh.
+Print Assumptions C07_builders_do_not_touch_secrets.
+Print Assumptions C07_builder_sequence_keeps_secrets.
+Print Assumptions C07_body_is_keystream_masked_layer.
+Print Assumptions C07_write_emits_cipher_only.
+Print Assumptions C07_flush_emits_nothing.
+Print Assumptions C07_body_is_keystream_masked.
+Print Assumptions C07_enc_format_byte.
+Print Assumptions C07_plain_windows_need_keystream_coincidence.
+
+(* ---------- non-vacuity ---------- *)
+(* two processes, the SAME calls with the SAME inputs, interleaved; the OS returns four different seeds; the
+   concrete ChaCha20 generator and the concrete X25519: every hypothesis of C07_fresh_if_entropy_fresh holds
+   (decided by computation for B = 4) and the two archives differ in key, nonce and ephemeral public key *)
+Definition ex_entropy (i : nat) : bytes := repeat (N.of_nat i + 1) 32.
+Definition ex_recip : bytes := X25519.bob_pk.
+Definition ex_files : files := [([102; 111; 111], [1; 2; 3; 4; 5])].
+Definition ex_trace : list evt :=
+  [mkEv 1 0 0 CNew; mkEv 2 7 0 CDefault;
+   mkEv 1 0 0 (CSetLayers 1); mkEv 2 7 0 (CDisable 2); mkEv 2 7 0 (CDisable 1); mkEv 2 7 0 (CEnable 1);
+   mkEv 1 0 0 (CAddKeys [ex_recip]); mkEv 2 7 0 (CAddKeys []); mkEv 2 7 0 (CAddKeys [ex_recip]); mkEv 1 0 0 (CLevel 3);
+   mkEv 2 7 0 (CCreate ex_files); mkEv 1 0 0 (CCreate ex_files)].
+(* the curve is the toy one of C07_example (tpub is injective on the scalars drawn here; the concrete
+   X25519 costs 2.4 s per multiplication under vm_compute) *)
+Notation ex_out := (m_out (run ex_entropy ChaCha20.chacha20_rng_bytes tpub 3 5 1 m_init ex_trace)).
+(* both archives are encrypted, from identical recipients / files / layer bits, by different processes *)
+Example C07_fresh_example_inputs :
+  map (fun a => (a_pid a, a_enc a, a_recips a, a_files a, a_layers a, a_cfg_req a, a_wrap_req a)) ex_out =
+  [(2, true, [ex_recip], ex_files, 1, 1%nat, 2%nat); (1, true, [ex_recip], ex_files, 1, 0%nat, 3%nat)].
+Proof. vm_compute. reflexivity. Qed.
+Lemma ex_bounded_inj (f : nat -> bytes) : nodupb (map f (seq 0 4)) = true ->
+  forall i j, (i < 4)%nat -> (j < 4)%nat -> f i = f j -> i = j.
+Proof. apply bounded_inj_of_check. Qed.
+(* every hypothesis of C07_fresh_if_entropy_fresh holds for these four requests under the concrete ChaCha20
+   (decided by computation), so its conclusion does *)
+Example C07_fresh_nonvacuous : forall a1 a2,
+  nth_error ex_out 0 = Some a1 -> nth_error ex_out 1 = Some a2 -> a_enc a1 = true -> a_enc a2 = true ->
+  a_key a1 <> a_key a2 /\ a_nonce a1 <> a_nonce a2 /\ a_eph a1 <> a_eph a2 /\ a_epub a1 <> a_epub a2.
+Proof.
+  intros a1 a2 H1 H2 E1 E2.
+  refine (C07_fresh_if_entropy_fresh ex_entropy ChaCha20.chacha20_rng_bytes tpub 3 5 1 4%nat _ _ _ _ _ ex_trace 0%nat 1%nat a1 a2 _ H1 H2 _ E1 E2).
+  - apply ex_bounded_inj. vm_compute. reflexivity.
+  - intros i j Hi Hj He. assert (Hij : i = j); [|rewrite Hij; reflexivity]. revert i j Hi Hj He.
+    apply (ex_bounded_inj (fun i => key_of ChaCha20.chacha20_rng_bytes (ex_entropy i))). vm_compute. reflexivity.
+  - intros i j Hi Hj He. assert (Hij : i = j); [|rewrite Hij; reflexivity]. revert i j Hi Hj He.
+    apply (ex_bounded_inj (fun i => nonce_of ChaCha20.chacha20_rng_bytes (ex_entropy i))). vm_compute. reflexivity.
+  - intros i j Hi Hj He. assert (Hij : i = j); [|rewrite Hij; reflexivity]. revert i j Hi Hj He.
+    apply (ex_bounded_inj (fun i => eph_of ChaCha20.chacha20_rng_bytes (ex_entropy i))). vm_compute. reflexivity.
+  - intros i j Hi Hj He. assert (Hij : i = j); [|rewrite Hij; reflexivity]. revert i j Hi Hj He.
+    apply (ex_bounded_inj (fun i => tpub (eph_of ChaCha20.chacha20_rng_bytes (ex_entropy i)))). vm_compute. reflexivity.
+  - vm_compute. apply le_n.
+  - discriminate.
+Qed.
+
+(* masking: a 150-byte plaintext in pieces with flushes in between; byte 70 = chunk 1, offset 6 *)
+Example C07_masked_nonvacuous :
+  let data := map (fun i => N.of_nat i mod 256) (seq 3 150) in
+  let cs := [EFlush; EWriteAll (takeN 5 data); EFlush; EFlush; EWriteAll []; EWriteAll (dropN 5 data); EFlush] in
+  (match ew_archive_calls 64 24 toy_ks (toy_tag 16) 300 cs with Ok s => ew_out s | _ => [] end)
+    = enc_format 64 toy_ks (toy_tag 16) data /\
+  byteN (1 * (64 + 16) + 6) (enc_format 64 toy_ks (toy_tag 16) data) = N.lxor (byteN 70 data) (toy_ks 1 6) /\
+  (* a window of the body trivially "occurs" in the body: the coincidence formula holds there *)
+  let w := sliceN 85 10 (enc_format 64 toy_ks (toy_tag 16) data) in
+  toy_ks 1 7 = N.lxor (byteN 2 w) (byteN 71 data).
+Proof. vm_compute. repeat split; reflexivity. Qed.
+
+(* ---------- Tie A (tools/src2v3_fresh.py -> gen/Src3.v) ---------- *)
+Theorem C07_tie_enc_default_draw_order : ltac:(let t := type of SrcTie3Fresh.enc_default_draw_order in exact t).
+Proof. exact SrcTie3Fresh.enc_default_draw_order. Qed.
+Theorem C07_tie_to_persistent_fresh_generator : ltac:(let t := type of SrcTie3Fresh.to_persistent_fresh_generator in exact t).
+Proof. exact SrcTie3Fresh.to_persistent_fresh_generator. Qed.
+Theorem C07_tie_ephemeral_from_that_generator : ltac:(let t := type of SrcTie3Fresh.ephemeral_from_that_generator in exact t).
+Proof. exact SrcTie3Fresh.ephemeral_from_that_generator. Qed.
+Theorem C07_tie_cfg_ctors_call_enc_default : ltac:(let t := type of SrcTie3Fresh.cfg_ctors_call_enc_default in exact t).
+Proof. exact SrcTie3Fresh.cfg_ctors_call_enc_default. Qed.
+Theorem C07_tie_builders_single_assignment : ltac:(let t := type of SrcTie3Fresh.builders_single_assignment in exact t).
+Proof. exact SrcTie3Fresh.builders_single_assignment. Qed.
+Theorem C07_tie_config_single_use : ltac:(let t := type of SrcTie3Fresh.config_single_use in exact t).
+Proof. exact SrcTie3Fresh.config_single_use. Qed.
+Theorem C07_tie_from_config_order : ltac:(let t := type of SrcTie3Fresh.from_config_order in exact t).
+Proof. exact SrcTie3Fresh.from_config_order. Qed.
+Theorem C07_tie_enc_writer_new_uses_config : ltac:(let t := type of SrcTie3Fresh.enc_writer_new_uses_config in exact t).
+Proof. exact SrcTie3Fresh.enc_writer_new_uses_config. Qed.
+Theorem C07_tie_aw_new_shape : ltac:(let t := type of SrcTie3Fresh.aw_new_shape in exact t).
+Proof. exact SrcTie3Fresh.aw_new_shape. Qed.
+Theorem C07_tie_generators_are_local : ltac:(let t := type of SrcTie3Fresh.generators_are_local in exact t).
+Proof. exact SrcTie3Fresh.generators_are_local. Qed.
+Theorem C07_tie_enc_flush_only_forwards : ltac:(let t := type of SrcTie3Fresh.enc_flush_only_forwards in exact t).
+Proof. exact SrcTie3Fresh.enc_flush_only_forwards. Qed.
+Theorem C07_tie_enc_inner_writes_are_cipher_outputs : ltac:(let t := type of SrcTie3Fresh.enc_inner_writes_are_cipher_outputs in exact t).
+Proof. exact SrcTie3Fresh.enc_inner_writes_are_cipher_outputs. Qed.
+Print Assumptions C07_tie_enc_default_draw_order.
+Print Assumptions C07_tie_to_persistent_fresh_generator.
+Print Assumptions C07_tie_ephemeral_from_that_generator.
+Print Assumptions C07_tie_cfg_ctors_call_enc_default.
+Print Assumptions C07_tie_builders_single_assignment.
+Print Assumptions C07_tie_config_single_use.
+Print Assumptions C07_tie_from_config_order.
+Print Assumptions C07_tie_enc_writer_new_uses_config.
+Print Assumptions C07_tie_aw_new_shape.
+Print Assumptions C07_tie_generators_are_local.
+Print Assumptions C07_tie_enc_flush_only_forwards.
+Print Assumptions C07_tie_enc_inner_writes_are_cipher_outputs.
